@@ -3,11 +3,18 @@ package main
 import (
 	"bufio"
 	"context"
+	"crypto/ecdsa"
+	"crypto/elliptic"
+	crand "crypto/rand"
+	"crypto/tls"
+	"crypto/x509"
+	"crypto/x509/pkix"
 	"encoding/binary"
 	"encoding/json"
 	"flag"
 	"fmt"
 	"io"
+	"math/big"
 	"math/rand"
 	"net"
 	"net/http"
@@ -37,6 +44,7 @@ func init() {
 
 type wirePorts struct {
 	TCP, UDP, WS, Ext int
+	TLS               int // a TCP listener with a TLS server configuration (self-signed certificate, no client certificates)
 }
 
 func cmdWireChild(_ []string) {
@@ -55,6 +63,14 @@ func cmdWireChild(_ []string) {
 	}
 	_, p, _ := net.SplitHostPort(tl.GetAddr())
 	fmt.Sscanf(p, "%d", &ports.TCP)
+	if tlscfg := selfSignedServerTLS(); tlscfg != nil {
+		if ttl, err := backends.NewTCPListener("127.0.0.1:0", tlscfg, n.Logger); err == nil {
+			if err := n.AddBackend(ttl); err == nil {
+				_, tp, _ := net.SplitHostPort(ttl.GetAddr())
+				fmt.Sscanf(tp, "%d", &ports.TLS)
+			}
+		}
+	}
 	ul, err := backends.NewUDPListener("127.0.0.1:0", n.Logger)
 	if err != nil {
 		panic(err)
@@ -168,6 +184,30 @@ func dialFramed(port int) (*framedConn, error) {
 	if err != nil {
 		return nil, err
 	}
+
+	return framedOver(c), nil
+}
+
+// dialFramedTLS: the same over TLS (the child's certificate is self-signed; the peer does not verify it), the TLS
+// handshake bounded by d.
+func dialFramedTLS(port int, d time.Duration) (*framedConn, error) {
+	c, err := net.DialTimeout("tcp", fmt.Sprintf("127.0.0.1:%d", port), 5*time.Second)
+	if err != nil {
+		return nil, err
+	}
+	tc := tls.Client(c, &tls.Config{InsecureSkipVerify: true}) //nolint:gosec
+	_ = c.SetDeadline(time.Now().Add(d))
+	if err := tc.Handshake(); err != nil {
+		_ = c.Close()
+
+		return nil, err
+	}
+	_ = c.SetDeadline(time.Time{})
+
+	return framedOver(tc), nil
+}
+
+func framedOver(c net.Conn) *framedConn {
 	fc := &framedConn{c: c, frames: make(chan []byte, 1024)}
 	go func() {
 		r := bufio.NewReader(c)
@@ -191,7 +231,7 @@ func dialFramed(port int) (*framedConn, error) {
 		close(fc.frames)
 	}()
 
-	return fc, nil
+	return fc
 }
 
 func (f *framedConn) Send(b []byte) error {
@@ -484,8 +524,8 @@ type wireChild struct {
 	gor   chan int
 	// local address ("victim:<ephemeral service>") of the stream connection the child's application keeps open
 	connAddr string
-	goodu *net.UDPConn // a second well-behaved peer, on the UDP listener (one receive goroutine serves all UDP peers)
-	uin   chan []byte
+	goodu    *net.UDPConn // a second well-behaved peer, on the UDP listener (one receive goroutine serves all UDP peers)
+	uin      chan []byte
 }
 
 func startWireChild() (*wireChild, error) { return startWireChildBin(false) }
@@ -911,6 +951,13 @@ done:
 		}
 		res.count("cross_session_runs")
 	}
+	if wc != nil && wc.alive() {
+		if sig, what, rp := runWireSilentTLS(wc); sig != "" {
+			res.violate(sig, what, rp)
+		}
+		res.count("silent_tls_runs")
+		res.Counters["tls_listener_port_known"] = boolInt(wc.ports.TLS != 0)
+	}
 	if *storm > 0 && wc != nil && wc.alive() {
 		// the concurrent phase runs against a fresh child, the race-detector build if there is one
 		gor := wc.goroutines()
@@ -964,13 +1011,17 @@ func runWireStorm(wc *wireChild, d time.Duration) (sig, what string) {
 		make func(k int) []byte
 	}
 	t0 := time.Date(2031, 1, 1, 0, 0, 0, 0, time.UTC)
-	ts := func(k int) string { return fmt.Sprintf("%q", t0.Add(time.Duration(k)*time.Millisecond).Format(time.RFC3339Nano)) }
+	ts := func(k int) string {
+		return fmt.Sprintf("%q", t0.Add(time.Duration(k)*time.Millisecond).Format(time.RFC3339Nano))
+	}
 	roles := []role{
 		{"stw", func(k int) []byte {
 			return adJSON("ghost", map[string]string{"Service": `"gsvc"`, "Cancel": "true", "Time": ts(2 * k)})
 		}},
 		{"str1", func(k int) []byte { return adJSON("ghost", map[string]string{"Service": `"gsvc"`, "Time": ts(0)}) }},
-		{"str2", func(k int) []byte { return adJSON("ghost", map[string]string{"Service": `"gsvc"`, "Time": ts(2*k + 1)}) }},
+		{"str2", func(k int) []byte {
+			return adJSON("ghost", map[string]string{"Service": `"gsvc"`, "Time": ts(2*k + 1)})
+		}},
 		{"str3", func(k int) []byte {
 			return adJSON("ghost", map[string]string{"Service": fmt.Sprintf("%q", fmt.Sprintf("g%d", k%5)), "Time": ts(k), "Cancel": fmt.Sprint(k%2 == 0)})
 		}},
@@ -1083,4 +1134,78 @@ func runWireCrossSession(wc *wireChild) (sig, what string, replay any) {
 	}
 
 	return "", "", nil
+}
+
+// selfSignedServerTLS makes a TLS server configuration with a fresh self-signed certificate (nil if that fails).
+func selfSignedServerTLS() *tls.Config {
+	key, err := ecdsa.GenerateKey(elliptic.P256(), crand.Reader)
+	if err != nil {
+		return nil
+	}
+	tmpl := &x509.Certificate{SerialNumber: big.NewInt(1), Subject: pkix.Name{CommonName: "victim"}, NotBefore: time.Now().Add(-time.Hour),
+		NotAfter: time.Now().Add(24 * time.Hour), KeyUsage: x509.KeyUsageDigitalSignature, ExtKeyUsage: []x509.ExtKeyUsage{x509.ExtKeyUsageServerAuth}, DNSNames: []string{"victim"}}
+	der, err := x509.CreateCertificate(crand.Reader, tmpl, tmpl, &key.PublicKey, key)
+	if err != nil {
+		return nil
+	}
+
+	return &tls.Config{Certificates: []tls.Certificate{{Certificate: [][]byte{der}, PrivateKey: key}}, MinVersion: tls.VersionTLS12}
+}
+
+// runWireSilentTLS: clients of the TLS listener that stall inside the TLS handshake (connect and say nothing; send the
+// first bytes of a record and stop; send a truncated ClientHello) and keep their connections open. Afterwards a
+// well-behaved peer must still be able to connect through the same listener, complete both handshakes and be answered.
+func runWireSilentTLS(wc *wireChild) (sig, what string, replay any) {
+	if wc.ports.TLS == 0 {
+		return "", "", nil
+	}
+	var held []net.Conn
+	defer func() {
+		for _, c := range held {
+			_ = c.Close()
+		}
+	}()
+	for _, first := range [][]byte{nil, {0x16, 0x03, 0x01}, {0x16, 0x03, 0x01, 0x02, 0x00, 0x01, 0x00, 0x01, 0xfc, 0x03, 0x03}} {
+		c, err := net.DialTimeout("tcp", fmt.Sprintf("127.0.0.1:%d", wc.ports.TLS), 5*time.Second)
+		if err != nil {
+			return "", "", nil
+		}
+		held = append(held, c)
+		if first != nil {
+			_, _ = c.Write(first)
+		}
+	}
+	time.Sleep(300 * time.Millisecond)
+	g, err := dialFramedTLS(wc.ports.TLS, 15*time.Second)
+	if err != nil {
+		if !wc.alive() {
+			return "C07:crash:stalled-tls-clients", "the node process exited after three clients stalled inside the TLS handshake of its TLS listener", map[string]any{"phase": "silent-tls"}
+		}
+
+		return "C07:wedged:stalled-tls-clients-block-listener", "three clients stalled inside the TLS handshake of the node's TLS listener and kept their connections open; 15 s later a well-behaved peer still cannot complete a TLS handshake with that listener: " + err.Error(), map[string]any{"phase": "silent-tls"}
+	}
+	defer g.Close()
+	_ = g.Send(ruJSON("goodt", 1, "goodt-hs0", map[string]string{"Connections": "{}"}))
+	_ = g.Send(ruJSON("goodt", 2, "goodt-hs1", nil))
+	deadline := time.After(15 * time.Second)
+	for {
+		_ = g.Send(peer.EncodeData(5, "goodt", "victim", "prb", "ping", nil))
+		resend := time.After(300 * time.Millisecond)
+	wait:
+		for {
+			select {
+			case f, ok := <-g.frames:
+				if !ok {
+					return "C07:wedged:tls-peer-not-served", "a well-behaved peer connected through the TLS listener after three stalled clients, but its session was closed", map[string]any{"phase": "silent-tls"}
+				}
+				if d := peer.Decode(f); d.Data != nil && d.Data.FromService == "ping" && d.Data.ToService == "prb" {
+					return "", "", nil
+				}
+			case <-resend:
+				break wait
+			case <-deadline:
+				return "C07:wedged:tls-peer-not-served", "a well-behaved peer connected through the TLS listener after three stalled clients, but its ping was not answered within 15 s", map[string]any{"phase": "silent-tls"}
+			}
+		}
+	}
 }
